@@ -12,6 +12,7 @@
 (*  {"k":"H256","v":hex,"hex","b64","json":hex of text,"backs":[[fn,err,v]]}     *)
 (*  {"k":"H256Parse","fn","s":hex,"err","v":hex}                                 *)
 (*  {"k":"FromBytes","n":int,"err"}                                              *)
+(*  {"k":"MethodTable","name":hex,"id":"decimal"}   one entry of code.Methods    *)
 (* NOTE lines carry the class the specification gives the input (for the         *)
 (* runner's finding keys, vacuity guards and observations).                      *)
 EXTENDS TextForms, Json, TLC
@@ -89,6 +90,9 @@ JudgeH256Parse(e) ==
      /\ AnyReadCoherent(c)
      /\ Admits(d, e)
 
+\* code.Methods: every key of the table is the get-method id of its name
+JudgeMethodTable(e) == Note("methodtable", e.id) /\ e.id = ToString(MethodId(H(e.name)))
+
 JudgeFromBytes(e) == Note("frombytes", e.n) /\ (e.err = "" <=> e.n = 32)
 
 NoPanic(e) == "panic" \in DOMAIN e => e.panic = ""
@@ -101,6 +105,7 @@ Judge(e) == NoPanic(e) /\
               [] e.k = "H256" -> JudgeH256(e)
               [] e.k = "H256Parse" -> JudgeH256Parse(e)
               [] e.k = "FromBytes" -> JudgeFromBytes(e)
+              [] e.k = "MethodTable" -> JudgeMethodTable(e)
               [] OTHER -> FALSE          \* Panic, unknown kinds: no action
 
 Init == l \in 1..N /\ v = "todo"
